@@ -496,6 +496,7 @@ func main() {
 	writerBigCases(r)
 	endToEnd(r)
 	sequentialStreams(r)
+	slowConsumerHalfClose(r)
 	for k, v := range stats {
 		note("stat %s %d", k, v)
 	}
@@ -617,4 +618,92 @@ func sequentialStreams(r *rng.R) {
 		}
 	}
 	note("nontrivial %x", uint64(rounds))
+}
+
+// --- a slow consumer and a client that half-closes the stream right after its last message (a raw
+// gRPC client stream: handshake by hand, then CloseSend - not Client.Disconnect, which cancels the
+// stream and may legitimately lose what is in flight). gRPC delivers every message sent before the
+// half-close; the server-side reader must hand all of them out before it reports the end of the
+// stream, however far behind it is.
+func slowConsumerHalfClose(r *rng.R) {
+	note("case e2e-slow-consumer-half-close")
+	lis, err := net.Listen("tcp", "127.0.0.1:0")
+	if err != nil {
+		note("note e2e-slow-consumer-half-close skipped: %v", err)
+		return
+	}
+	schema, _ := otelstef.MetricsWireSchema()
+	type result struct {
+		got []byte
+		err error
+	}
+	resCh := make(chan result, 1)
+	srv := stefgrpc.NewStreamServer(stefgrpc.ServerSettings{
+		ServerSchema: &schema,
+		Callbacks: stefgrpc.Callbacks{OnStream: func(reader stefgrpc.GrpcReader, stream stefgrpc.STEFStream) error {
+			var all []byte
+			buf := make([]byte, 7)
+			for {
+				time.Sleep(1500 * time.Microsecond)
+				n, err := reader.Read(buf)
+				all = append(all, buf[:n]...)
+				if err != nil {
+					resCh <- result{all, err}
+					return nil
+				}
+			}
+		}},
+	})
+	gs := grpc.NewServer()
+	stef_proto.RegisterSTEFDestinationServer(gs, srv)
+	go gs.Serve(lis)
+	defer gs.Stop()
+	conn, err := grpc.NewClient(lis.Addr().String(), grpc.WithTransportCredentials(insecure.NewCredentials()))
+	if err != nil {
+		propFail("C15 e2e-dial %v", err)
+		return
+	}
+	defer conn.Close()
+	ctx, cancel := context.WithTimeout(context.Background(), 30*time.Second)
+	defer cancel()
+	st, err := stef_proto.NewSTEFDestinationClient(conn).Stream(ctx)
+	if err != nil {
+		propFail("C15 e2e-stream %v", err)
+		return
+	}
+	if err := st.Send(&stef_proto.STEFClientMessage{FirstMessage: &stef_proto.STEFClientFirstMessage{RootStructName: "Metrics"}}); err != nil {
+		propFail("C15 e2e-first-message %v", err)
+		return
+	}
+	if _, err := st.Recv(); err != nil { // capabilities
+		propFail("C15 e2e-capabilities %v", err)
+		return
+	}
+	var want []byte
+	nchunks := 30 + r.Intn(20)
+	for k := 0; k < nchunks; k++ {
+		c := make([]byte, 3+r.Intn(9))
+		for x := range c {
+			c[x] = byte(r.U64())
+		}
+		want = append(want, c...)
+		if k%3 == 0 && len(c) > 2 {
+			// a chunk split over two messages
+			st.Send(&stef_proto.STEFClientMessage{StefBytes: c[:2]})
+			st.Send(&stef_proto.STEFClientMessage{StefBytes: c[2:], IsEndOfChunk: true})
+		} else {
+			st.Send(&stef_proto.STEFClientMessage{StefBytes: c, IsEndOfChunk: true})
+		}
+	}
+	st.CloseSend()
+	stats["slow-consumer-chunks"] += nchunks
+	select {
+	case res := <-resCh:
+		if !bytes.Equal(res.got, want) {
+			propFail("C15 bytes-lost-at-end-of-stream %d chunks (%d bytes) sent and the stream half-closed while the reader was behind: the reader observed %d bytes (%s) and then %v; sent %s", nchunks, len(want), len(res.got), hx(res.got), res.err, hx(want))
+		}
+	case <-time.After(25 * time.Second):
+		propFail("C15 e2e-timeout slow consumer: server handler did not finish")
+	}
+	note("nontrivial %x", uint64(nchunks))
 }
